@@ -1,16 +1,28 @@
 package main
 
 import (
+	"encoding/json"
 	"fmt"
 	"os"
 
 	"verif/internal/lib"
 )
 
+// probe <spec.json | schema text> docs...
 func main() {
-	schema := os.Args[1]
-	for _, d := range os.Args[2:] {
-		fmt.Printf("%-30s %s\n", d, lib.Validate(lib.Spec{Text: schema}, d))
+	var sp lib.Spec
+	if b, err := os.ReadFile(os.Args[1]); err == nil {
+		if json.Unmarshal(b, &sp) != nil {
+			sp = lib.Spec{Text: string(b)}
+		}
+	} else {
+		sp = lib.Spec{Text: os.Args[1]}
 	}
-	fmt.Println("check:", lib.Check(lib.Spec{Text: schema}))
+	for _, d := range os.Args[2:] {
+		fmt.Printf("%-30s %s\n", d, lib.Validate(sp, d))
+	}
+	fmt.Println("check:", lib.Check(sp))
+	s, _ := lib.Build(sp)
+	ex, o := lib.SafeVal(s.Example)
+	fmt.Println("example:", string(ex), o)
 }
